@@ -13,6 +13,7 @@ PoseSpace == [p : TSpace, R : Rots]
 Pick(S) == RandomSubset(Sample, S)
 Small(S) == RandomSubset(Sample \div 8 + 2, S)
 None == [R |-> Id3, t |-> <<0, 0, 0>>, src |-> "none", dst |-> "none"]
+IdLinks == {[R |-> Id3, t |-> <<0, 0, 0>>, src |-> s_, dst |-> d_] : s_ \in Frames, d_ \in Frames}
 \* registry elements: a small fixed family over RegFrames
 Rz90 == <<<<0, -1, 0>>, <<1, 0, 0>>, <<0, 0, 1>>>>
 Rx90 == <<<<1, 0, 0>>, <<0, 0, -1>>, <<0, 1, 0>>>>
@@ -21,6 +22,9 @@ RegElems == {[R |-> r, t |-> <<1, -3, 2>>, src |-> s, dst |-> d] : r \in {Rz90, 
 Init ==
   /\ phase = "input" /\ out = <<>> /\ reg = {} /\ log = <<>>
   /\ \/ kind = "pair" /\ A \in Pick(ElemSpace) /\ B \in Pick(ElemSpace) /\ C = None /\ pose \in Small(PoseSpace)
+     \* structured pairs: an identity-valued link between two different frames (a sensor mounted at the vehicle origin) on either side
+     \/ kind = "pair" /\ A \in Small(ElemSpace) /\ B \in IdLinks /\ C = None /\ pose \in Small(PoseSpace)
+     \/ kind = "pair" /\ A \in IdLinks /\ B \in Small(ElemSpace) /\ C = None /\ pose \in Small(PoseSpace)
      \/ kind = "triple" /\ A \in Small(ElemSpace) /\ B \in Small(ElemSpace) /\ C \in Small(ElemSpace) /\ pose \in Small(PoseSpace)
      \/ kind = "registry" /\ A = None /\ B = None /\ C = None /\ pose = [p |-> <<1, 2, 3>>, R |-> Id3]
 
